@@ -23,7 +23,9 @@ CLAIMED = {
         "a simulation theorem for whole programs of any size made of LET, PRINT, GOTO, ON..GOTO and END: codegen+link produce an explicit layout with every "
         "branch slot patched to its target line's first instruction, and the VM's fetch loop on it follows Spec/Sem.run for any number of steps: the texts "
         "Sem prints are exactly the texts of the VM's PRINT events, in order; END with store V => VM stops with store V; error c => VM reports c "
-        "(Proofs/Flow.v..Flow4.v, LineLit.v).",
+        "(Proofs/Flow.v..Flow4.v, LineLit.v); the instruction sequences of FOR (start value, store, limit, step, name, loop address) and of NEXT with a "
+        "list (one NEXT per name, in the order written), and on the VM the FOR sequence evaluates limit and step in the store in which the loop variable "
+        "already holds the start value and leaves the frame limit / step / name / address (Proofs/StmtShape.v).",
         "the whole interpreter model (lexer, parser, codegen, linker, VM) against the crate on generated programs of the well-defined "
         "fragment, and the crate's transcript against Spec/Sem.v (statement-by-statement, continuations and frames, no addresses), which "
         "produces the concrete failing program.",
@@ -73,11 +75,11 @@ CLAIMED = {
         "the listed text of line n, entered again, is line n again (all n <= 65529, all token lists); the decimal rendering of a number reads back "
         "as the number; a string literal's payload is copied character for character; a line that is a remark (' text, or REM followed by a character that cannot "
         "continue a word) lists as itself with the trailing blanks removed, whatever code points the text holds, and that listing is a fixed point of entering and "
-        "listing again (Props/C05.v, Proofs/RemarkText.v).",
+        "listing again; & constants list as the text they were read from and scan back to the same token (Props/C05.v, Proofs/RemarkText.v, RadixText.v).",
         "all strings over the lexical alphabet up to the tier's length, token-spelling pairs, constants glued to words, soup and program lines: "
         "relist twice (fixed point), same line number, same AST for original and listed text or both rejected, payloads preserved; SAVE/LOAD "
         "through Listing::load_str.",
-        "PARTIAL: the fixed-point and same-meaning halves (lex(print ts) = ts) are proved for remark lines only; for all other lines they are decided by the monitor on the crate. Two known "
+        "PARTIAL: the fixed-point and same-meaning halves (lex(print ts) = ts) are proved for remark lines and & constants only; for all other lines they are decided by the monitor on the crate. Two known "
         "findings are listed (text glued to REM; relational-operator soup behind ignored arguments).",
         "Coq theorems on the line-number prefix + exhaustive short-string relational check on the implementation"),
     "C06": entry(
